@@ -44,6 +44,9 @@ Definition mpa_parse (buf : bytes) : pres :=
   | _ => PErr        (* len(buf) < 5 *)
   end.
 
+Inductive eres (A : Type) := EOk (x : A) | EErr | EPanic.
+Arguments EOk {A} x. Arguments EErr {A}. Arguments EPanic {A}.
+
 Section M.
 Variable mpa : bytes -> pres.
 Variable max : N.
@@ -88,8 +91,6 @@ Definition write_batch (batch : list bytes) (ts seq : N) : option (list packet) 
 
 (* timestamp += SampleCount of every frame of a flushed batch (uint32); a frame whose header does
    not parse makes Encode fail: EErr *)
-Inductive eres (A : Type) := EOk (x : A) | EErr | EPanic.
-Arguments EOk {A} x. Arguments EErr {A}. Arguments EPanic {A}.
 
 Fixpoint batch_samples (batch : list bytes) (ts : N) : eres N :=
   match batch with
